@@ -101,7 +101,7 @@ def run_tlc(module, cfg, consts=None, workers=None, timeout=900, extra=None, sim
         shutil.copy(src, os.path.join(d, name))
     meta = os.path.join(scratch(), "meta_" + tag)
     out = os.path.join(scratch(), tag + ".out")
-    cmd = ["java", "-XX:+UseParallelGC", "-Xss64m"]
+    cmd = ["java", "-XX:+UseParallelGC", "-Xss512m"]
     if heap:
         cmd.append("-Xmx" + heap)
     if deque:
